@@ -261,6 +261,20 @@ def main(argv=None):
     a = ap.parse_args(argv)
     seed = int(os.environ.get('VERIF_SEED', '0') or 0)
     sys.path.insert(0, str(ROOT))
+    # watchdog: code under verification that no longer terminates must not hang the check (undecided, never a violation)
+    import signal
+    budget = int(os.environ.get('VERIF_BUDGET_S', '0') or 0) or (5400 if a.tier == 'thorough' else 1500)
+
+    def _timeout(signum, frame):
+        print(f'UNDECIDED property={a.pid}: time budget of {budget}s exceeded (non-terminating code under verification or overloaded machine)', flush=True)
+        try:
+            import multiprocessing
+            for ch in multiprocessing.active_children():
+                ch.kill()
+        finally:
+            os._exit(2)
+    signal.signal(signal.SIGALRM, _timeout)
+    signal.alarm(budget)
     try:
         if a.replay:
             rec = json.loads(Path(a.replay).read_text())
